@@ -406,6 +406,83 @@ def r_shift(prog, R, tier):
                             render(nd["r"]), lo, hi, bits))
 
 
+def _probe_cycle_bounded(prog):
+    """ares_send_query -> ares_probe_failed_server -> ares_send_nolock -> ares_send_query has depth 1: the probe names its server, and
+    ares_send_query switches probing off whenever it was given a server"""
+    sq = prog.func("ares_send_query")
+    mf = MustFacts(sq, track_calls=False)
+    guarded = False
+    for b, i, c in sq.calls_to("ares_probe_failed_server"):
+        guarded = any(norm_cmp(c3, p3)[0] == "truth" and is_var(strip(norm_cmp(c3, p3)[1]), "probe_downed_server") for c3, p3 in mf.cond_facts_at(b, i))
+    off = False
+    for b in sq.blocks.values():
+        br = sq.branch(b)
+        if br and "requested_server != NULL" in render(br[0]).replace("((void *)0)", "NULL"):
+            pass
+    for b, i, el in sq.elements():
+        if el["k"] == "asg" and is_var(strip(el["e"]["l"]), "probe_downed_server") and name_of_const(el["e"].get("r")) == "ARES_FALSE":
+            # the store is reached (among others) whenever requested_server != NULL: its block is the join of a disjunction whose
+            # first operand tests requested_server
+            for pb in sq.blocks.values():
+                br = sq.branch(pb)
+                if br and b.id in [x for x in pb.succs if x is not None]:
+                    op, l, rr = norm_cmp(br[0], True)
+                    if is_var(strip(l), "requested_server") and ((op == "!=" and rr is not None and is_null(rr)) or op == "truth") and pb.succs[0] == b.id:
+                        off = True
+    pf = prog.func("ares_probe_failed_server")
+    named = False
+    for b, i, c in pf.calls_to("ares_send_nolock"):
+        a = strip(call_arg(c, 1))
+        named = a is not None and a.get("k") == "var" and not is_null(a)
+    sn = prog.func("ares_send_nolock")
+    fwd = any(is_var(strip(call_arg(c, 0)), sn.params[1]["n"]) for _, _, c in sn.calls_to("ares_send_query"))
+    return guarded and off and named and fwd
+
+
+def r_depth(prog, R):
+    r = R.rule("R-C06-DEPTH", "the retry state machine does not recurse once per attempt (stack depth independent of tries x servers)", floor=1, analysis="call-graph cycles through the (re)transmission functions")
+    # direct-call graph of the library proper (containers and string helpers have their own, data-bounded recursion)
+    edges = {}
+    for f in prog.funcs.values():
+        if f.file.startswith(("src/lib/dsa/", "src/lib/str/", "src/lib/util/")):
+            continue
+        for b, i, c in f.calls():
+            t = prog.resolve(f, c)
+            if t is not None and not t.file.startswith(("src/lib/dsa/", "src/lib/str/", "src/lib/util/")):
+                edges.setdefault(f.key, {})[t.key] = c["ln"]
+    roots = [prog.func(n) for n in ("ares_send_query", "ares_requeue_query")]
+    found = {}
+    for root in roots:
+        # shortest cycles through root
+        seen = {root.key: None}
+        work = [root.key]
+        while work:
+            k = work.pop(0)
+            for t in edges.get(k, {}):
+                if t == root.key:
+                    path_ = [k]
+                    while seen[path_[-1]] is not None:
+                        path_.append(seen[path_[-1]])
+                    cyc = tuple(reversed(path_))
+                    names = [prog.funcs[x].name for x in cyc]
+                    # canonical rotation
+                    j = names.index(min(names))
+                    names = names[j:] + names[:j]
+                    found.setdefault(tuple(names), prog.funcs[k].loc(edges[k][t]))
+                elif t not in seen:
+                    seen[t] = k
+                    work.append(t)
+    if not found:
+        r.ok("no recursion through ares_send_query/ares_requeue_query", roots[0].loc(roots[0].ln))
+    for names, loc in sorted(found.items()):
+        k = "cycle " + "->".join(names)
+        if "ares_probe_failed_server" in names and _probe_cycle_bounded(prog):
+            r.ok(k + " (bounded: a probe is sent to an explicit server, for which ares_send_query never probes again)", loc)
+            continue
+        r.viol(k, names[0], loc, "%s call each other recursively, one level per failed attempt: the stack depth grows with tries x servers (an option value), so a large 'tries' with attempts that fail synchronously (socket open/connect/send errors) exhausts the stack instead of completing the query with a status" % " -> ".join(names))
+    r.info["cycles"] = ["->".join(n) for n in found]
+
+
 def run(prog, R, tier):
     R.assume("options values are within the types' ranges (tries, timeout are ints >= 1 after ares_init_by_options validation)")
     r_sites(prog, R)
@@ -413,3 +490,4 @@ def run(prog, R, tier):
     r_resend(prog, R)
     r_timeout(prog, R)
     r_shift(prog, R, tier)
+    r_depth(prog, R)
